@@ -301,7 +301,8 @@ fn linear_all(ctx: &Ctx, sink: &mut Sink) {
     let jl = rng.range(LLO + 800, LHI - 800);
     if let Some((da, db)) = ab(&mut rng, jl, LLO, LHI, da0, db0) {
       linc(sink, 112, day_of(jl).and_then(|d| catch_iso(|| d.get_lunar_day())), da, db, |x, n| x.next(n as isize),
-        |x| vec![jdn(&x.get_solar_day()), x.get_year() as i64, x.get_month() as i64, x.get_day() as i64, x.get_sixty_cycle().get_index() as i64],
+        |x| vec![jdn(&x.get_solar_day()), x.get_year() as i64, x.get_month() as i64, x.get_day() as i64, x.get_sixty_cycle().get_index() as i64,
+                 x.get_sixty_cycle_day().get_sixty_cycle().get_index() as i64, x.get_week().get_index() as i64],
         |x| LunarDay::from_ymd(x.get_year(), x.get_month(), x.get_day()));
       linc(sink, 113, day_of(jl).and_then(|d| catch_iso(|| d.get_sixty_cycle_day())), da, db, |x, n| x.next(n as isize),
         |x| vec![jdn(&x.get_solar_day()), x.get_year().get_index() as i64, x.get_month().get_index() as i64, x.get_sixty_cycle().get_index() as i64],
@@ -365,6 +366,13 @@ fn linear_all(ctx: &Ctx, sink: &mut Sink) {
     };
     let (ta, tb) = secs(&mut rng, j, JLO + 2, JHI - 2);
     lin(sink, 120, time_of(j, s), ta, tb, |x, n| x.next(n as isize), |x| { let (a, b) = inst(x); vec![a, b] });
+    // ... and instants on whole hours stepped by whole hours / days: steps that land exactly on a midnight
+    if k % 3 == 0 {
+      let hs = 3600 * rng.range(0, 23);
+      let (ga, gb) = (3600 * rng.range(-72, 72), 3600 * rng.range(-72, 72));
+      lin(sink, 120, time_of(j, hs), ga, gb, |x, n| x.next(n as isize), |x| { let (a, b) = inst(x); vec![a, b] });
+      lin(sink, 121, time_of(jl, hs).and_then(|t| catch_iso(|| t.get_sixty_cycle_hour())), ga, gb, |x: &SixtyCycleHour, n| x.next(n as isize), |x| { let (a, b) = inst(&x.get_solar_time()); vec![a, b] });
+    }
     let (ta, tb) = secs(&mut rng, jl, LLO + 2, LHI - 2);
     let sch = |x: &SixtyCycleHour| { let (a, b) = inst(&x.get_solar_time()); vec![a, b, x.get_year().get_index() as i64, x.get_month().get_index() as i64, x.get_day().get_index() as i64, x.get_sixty_cycle().get_index() as i64] };
     linc(sink, 121, time_of(jl, s).and_then(|t| catch_iso(|| t.get_sixty_cycle_hour())), ta, tb, |x: &SixtyCycleHour, n| x.next(n as isize), sch,
